@@ -108,10 +108,16 @@ pub fn eval_mixed<F: Fn(&StepViolation) -> bool>(scene: &Scene, owns: &F, isolat
                 st.partial += s.partial;
             }
             Err(v) => {
-                if lenient && v.kind == Kind::WrongValue {
+                // candidates: the first violation in scan order, then the first of every other
+                // category of the same step; value clauses are not judged under a lenient clip
+                let mut cands = vec![v];
+                cands.extend(take_others());
+                cands.retain(|o| !(lenient && o.kind == Kind::WrongValue));
+                if cands.is_empty() {
                     st.foreign = true;
                     return Ok(st);
                 }
+                let v = cands.iter().find(|o| owns(o)).cloned().unwrap_or_else(|| cands[0].clone());
                 if owns(&v) {
                     return Err(Violation::new(format!("mixed/{}/{}", prop_kind(&v.kind), v.clause), scene.to_string(), format!("step {} ({}) under the model's clip (rect {:?}, {}): {}\n{}", i, op.kind(), eff.rect, if eff.mask.is_some() { "path coverage product" } else { "no path" }, v.clause, v.detail)));
                 }
